@@ -59,6 +59,10 @@ func Parse(p protos.P, b []byte) (out []wire.Spec, err error) {
 			return out, e
 		}
 		out = append(out, wire.Extract(m, p))
+		if !p.Stream {
+			// message-framed sub-protocols take the whole input as one message
+			return out, nil
+		}
 	}
 }
 
